@@ -403,7 +403,7 @@ impl Walrus {
                     mmap: mmap.clone(),
                 };
                 // register and append
-                BlockStateTracker::register_block(next_block_id, file_path);
+                BlockStateTracker::register_block(self.allocator.ns(), next_block_id, file_path);
                 FileStateTracker::add_block_to_file_state(file_path);
                 if !col_name.is_empty() {
                     let _ = self.reader.append_block_to_chain(&col_name, block.clone());
@@ -448,10 +448,10 @@ impl Walrus {
                             info.cur_block_offset = 0;
                         }
                         for i in 0..ib {
-                            BlockStateTracker::set_checkpointed_true(info.chain[i].id as usize);
+                            BlockStateTracker::set_checkpointed_true(self.allocator.ns(), info.chain[i].id as usize);
                         }
                         if ib < info.chain.len() && info.cur_block_offset >= info.chain[ib].used {
-                            BlockStateTracker::set_checkpointed_true(info.chain[ib].id as usize);
+                            BlockStateTracker::set_checkpointed_true(self.allocator.ns(), info.chain[ib].id as usize);
                         }
                     }
                 }
